@@ -34,7 +34,7 @@ ASSUMPTIONS = ["exact degeneracy inside the rotated pair (for a gap between 0 an
 OUTSIDE = ["degenerate multiplets of more than two bands", "the numerical eigensolver (np.linalg.eigh is stubbed: the H(k+G)=H(k) identity at matrix level is what is shown; equal matrices give equal eigen-decompositions)",
            "integrated results of run(): they follow from the per-k traces by linearity of the k-sum (stated, not checked)", "SDCT / dynamic-calculator pair formulas (trace_ln)"]
 STUBS = ["np.exp in fourier/fft.py and fourier/rvectors.py: exp(i(phi+c)) = exp(i phi)*exp(i c) with the constant part evaluated in doubles (so k and k+G share unit-circle atoms)",
-         "np.linalg.eigh: returns the harness's symbolic spectrum (e0,e0,e1) and U = 1 (random_gauge cases)", "scipy.stats.unitary_group.rvs(2) -> W from the U(2) family",
+         "np.linalg.eigh: returns the harness's symbolic spectrum (e0,e0,e1) and a fixed complex matrix U0 mixing all bands (random_gauge cases)", "scipy.stats.unitary_group.rvs(2) -> W from the U(2) family",
          "system object: attributes num_wann, real_lattice, rvec (a real Rvectors), get_R_mat/has_R_mat on a dict", "Data_K.delE_K pre-seeded (see C08)"]
 
 
@@ -291,6 +291,14 @@ def sym_system(nb, iR, names, concrete=None):
     return SysStub(nb, XR, rvec)
 
 
+def U0(nb):
+    """a fixed non-trivial 'eigenvector' matrix (cyclic permutation with phases: rows and columns must not be confused; entries 0, 1, -1, i keep the polynomials small)"""
+    A = np.zeros((nb, nb), dtype=complex)
+    for j, ph in zip(range(nb), [1j, 1, -1, 1][:nb]):
+        A[(j - 1) % nb, j] = ph
+    return A
+
+
 class EighStub(LinalgProxy):
     def __init__(s, real, E, log):
         super().__init__(real)
@@ -299,7 +307,7 @@ class EighStub(LinalgProxy):
     def eigh(s, a, *args, **kw):
         s.log.append(a)
         nb = s.E.shape[1]
-        return s.E.copy(), lift(np.eye(nb))[None].copy().view(SymArray)
+        return s.E.copy(), lift(U0(nb))[None].copy().view(SymArray)
 
 
 def case_random_gauge(rec, nb):
@@ -330,10 +338,10 @@ def case_random_gauge(rec, nb):
             dk.__dict__['cell_volume'] = 8.0
             UUk = dk.UU_K
             if rg:
-                want = embed(W, nb)
+                want = (lift(U0(nb)) @ embed(W, nb)[0])[None].view(SymArray)
                 rec.eq("UU_K = eigenvectors rotated by the drawn unitary inside the degenerate pair only", UUk, want, key="random_gauge: UU_K is not U * (W (+) 1)")
                 rec.concrete("one unitary of size 2 drawn", calls == [2], detail=str(calls), key="random_gauge: wrong multiplet sizes drawn")
-            res.append({q: tab(dk).data for q, tab in tabs.items() if q != "berry_curvature" and q != "berry_curvature_external_terms"})
+            res.append({q: tab(dk).data for q, tab in tabs.items()})
         for q in res[0]:
             rec.eq(f"tabulated {q}: random_gauge=True == random_gauge=False", res[1][q], res[0][q], key=f"random_gauge changes the tabulated {q}")
     rec.explore(body, ass + [thr.zreal() > 0])
@@ -407,11 +415,9 @@ QUICK_BASES = ("basic.tildeFab", "basic.tildeFc", "basic.tildeHGc", "basic.tilde
                "covariant.VelOmega", "covariant.VelSpin", "covariant.VelVel", "covariant.VelVelVel", "covariant.Velocity", "covariant.morb", "elementary.DerWln", "elementary.InvMass")
 QUICK_EXT_FALSE = ("basic.tildeFab_d", "basic.tildeFc_d", "basic.tildeHab_d", "covariant.DerMorb", "covariant.DerMorb_H", "covariant.DerOmega", "covariant.DerQuantumMetric_ab_d",
                    "covariant.Dermorb", "covariant.OmegaHplus", "covariant.OmegaOmega")
-# do not finish within 150 s CPU each at nb=3 (measured): not covered
-NOT_FINISHING = ("covariant.Der2Morb", "covariant.Der2Morb_H", "covariant.Der2Omega", "covariant.Der2morb", "covariant.NLDrude_Z_orb_Hplus", "covariant.NLDrude_Z_orb_Omega",
-                 "covariant.emcha_surf")
-SLOW = ("covariant.OmegaHplus", "covariant.VelDQM", "covariant.VelDQM internal_terms=False", "covariant.NLDrude_Z_spin", "covariant.NLDrude_Z_spin external_terms=False")
-OUTSIDE += ["gauge covariance of the second-derivative / third-order classes " + ", ".join(NOT_FINISHING) + " (normal forms with the rotation atoms do not finish within 150 CPU-seconds per variant at nb=3; "
+# 2..12 CPU-minutes per variant at nb=3 (measured: emcha_surf external_terms=False 444 s, internal_terms=False > 680 s; the Der2Morb family > 150 s): outside the thorough budget, not covered
+NOT_FINISHING = ("covariant.Der2Morb", "covariant.Der2Morb_H", "covariant.Der2morb", "covariant.NLDrude_Z_orb_Hplus", "covariant.NLDrude_Z_orb_Omega", "covariant.emcha_surf")
+OUTSIDE += ["gauge covariance of the classes " + ", ".join(NOT_FINISHING) + " (normal forms with the rotation atoms need several CPU-minutes per variant at nb=3, beyond the tier budgets; "
             "never reported as passed)"]
 
 
@@ -545,7 +551,7 @@ def _replay(rec):
         if E[0, 2] - E[0, 1] <= 0:
             E[0, 2:] = E[0, 1] + 0.37 * np.arange(1, nb - 1)
         real_eigh, real_rvs = np.linalg.eigh, scipy.stats.unitary_group.rvs
-        np.linalg.eigh = lambda a, *x, **k: (E.copy(), np.eye(nb, dtype=complex)[None].copy())
+        np.linalg.eigh = lambda a, *x, **k: (E.copy(), U0(nb)[None].copy())
         scipy.stats.unitary_group.rvs = lambda dim, *a, **k: W.copy()
         try:
             res = []
@@ -554,11 +560,12 @@ def _replay(rec):
                 dk.__dict__['cell_volume'] = 8.0
                 UUk = dk.UU_K
                 if rg:
-                    want = np.eye(nb, dtype=complex)[None].copy()
-                    want[0, :2, :2] = W
+                    WW = np.eye(nb, dtype=complex)
+                    WW[:2, :2] = W
+                    want = (U0(nb) @ WW)[None]
                     if np.abs(UUk - want).max() > 1e-9:
                         return True, f"UU_K differs from U*(W(+)1) by {np.abs(UUk - want).max():.2e}"
-                res.append({q: tab(dk).data for q, tab in tabulators().items() if q not in ("berry_curvature", "berry_curvature_external_terms")})
+                res.append({q: tab(dk).data for q, tab in tabulators().items()})
         finally:
             np.linalg.eigh, scipy.stats.unitary_group.rvs = real_eigh, real_rvs
         worst = max(np.abs(res[0][q] - res[1][q]).max() for q in res[0])
